@@ -218,3 +218,43 @@ def same_points(a, b, rtol=0.0):
         if len(fp) != len(fq) or not np.allclose(fp, fq, rtol=rtol, atol=1e-12):
             return False
     return True
+
+
+def inner_learners(kn, l):
+    """the base learner objects behind the wrappers of kind `kn` (DataSaver -> .learner, BalancingLearner -> .learners)"""
+    if kn.startswith("bal:"):
+        return list(l.learners)
+    if kn.startswith("ds:"):
+        return [l.learner]
+    return [l]
+
+
+def sync_l2d_stacks(kn, src, dst):
+    """Learner2D keeps a private stack of speculative suggestions that a non-committing ask rewrites and that file / copy_from
+    restores do not carry (recorded findings *:l2d_stack_cache).  To keep every OTHER difference visible, the oracles copy the
+    stack of `src` to `dst` and count the event; returns the number of learners whose stacks differed."""
+    from collections import OrderedDict
+    n = 0
+    for a, b in zip(inner_learners(kn, src), inner_learners(kn, dst)):
+        if hasattr(a, "_stack") and list(a._stack.items()) != list(b._stack.items()):
+            b._stack = OrderedDict(a._stack)
+            b._ip_combined = None
+            n += 1
+    return n
+
+
+def sync_l2d_pending_order(kn, a, b):
+    """Learner2D.loss(real=False) and its suggestions triangulate data + list(self.pending_points): the iteration order of that
+    hash set depends on its insertion / deletion history (recorded finding *:l2d_pending_set_order).  When two twins hold the
+    same pending set in a different iteration order, both sets are rebuilt by the same insertion sequence (so the twins agree
+    again and every OTHER difference stays visible); returns the number of learners where the orders differed."""
+    n = 0
+    for x, y in zip(inner_learners(kn, a), inner_learners(kn, b)):
+        if hasattr(x, "_stack") and set(x.pending_points) == set(y.pending_points):
+            if list(x.pending_points) != list(y.pending_points):
+                n += 1
+            # (also when the orders agree right now: slots freed by earlier discards decide where later points land)
+            order = sorted(x.pending_points)
+            x.pending_points, y.pending_points = set(order), set(order)
+            x._ip_combined = y._ip_combined = None
+    return n
